@@ -849,3 +849,42 @@ def cond_call(b, pat):
             if z:
                 zero.append((sb, z[0]))
     return (lambda l, d: d["kind"] == "call" and d["call"].matches(pat)), zero
+
+
+def rule_erase_arith(ctx, crate, rule="R-ERASE-ARITH"):
+    """Protocol constants of the erase phase (the frame's last row has no trailing newline, so the cursor sits on the
+    frame's last row): reposition by (previous rows - 1); clear exactly `previous rows` rows."""
+    cfg = crate.config
+    b = the_emitter(ctx, crate, rule)
+    if not b:
+        return
+    p = count_param(b)
+    if p is None:
+        ctx.lost(rule, cfg, "no row-count parameter")
+        return
+    bodies = [b] + [crate.bodies[c.path] for c in helper_calls(crate, b, "move_cursor_up", "clear_line")]
+    n = 0
+    for x in bodies:
+        for c in tl_calls(x, "move_cursor_up"):
+            sl = x.slice_args(c, [1])
+            if x is b and p not in sl.locals:
+                continue
+            n += 1
+            minus1 = any(k.matches(r"core::num::<impl usize>::(saturating_sub|checked_sub|wrapping_sub)") and is_const(k.args[1], 1) for k in sl.calls) or \
+                any(d["kind"] == "assign" and d["rv"]["k"] == "bin" and d["rv"]["op"].startswith("Sub") and is_const(d["rv"]["b"], 1) for d in sl.defs)
+            other = [k for k in sl.calls if k.matches(r"core::num::<impl usize>::\w+") and not (is_const(k.args[1], 1) and K.meth(k.path) in ("saturating_sub", "checked_sub", "wrapping_sub"))]
+            ctx.check(minus1 and not other, rule, "up-by-rows-minus-one#%d" % (n - 1), x.name, c.loc(), "the cursor moves up by (previous rows - 1)",
+                      "the cursor does not move up by exactly (previous rows - 1)", cfg)
+        for c in tl_calls(x, "clear_line"):
+            # the loop's range: 0..rows with rows unmodified
+            rng = [(i, s) for i, j, s in x.assigns() if s["rv"]["k"] == "agg" and s["rv"].get("adt") == "std::ops::Range" and c.bb in x.reach_after(i)]
+            okr = False
+            for i, s in rng:
+                st, en = s["rv"]["ops"]
+                esl = x.slice(en, at=i)
+                if is_const(st, 0) and not [k for k in esl.calls if k.matches(r"core::num::<impl usize>::\w+")] and not [a for a in esl.atoms if a[0] == "binop"] and (esl.params() or p in esl.locals):
+                    okr = True
+            if rng:
+                n += 1
+                ctx.check(okr, rule, "clear-exactly-rows", x.name, c.loc(), "the clear loop runs over 0..previous rows", "the clear loop does not cover exactly the previous rows", cfg)
+    ctx.floor(rule, n, 2, cfg, "erase-phase arithmetic sites")
